@@ -263,8 +263,19 @@ def finish(prop, tier, seed, results, extra, t0, level_text=None, partial=False)
                 xcheck_scen += xc["scenarios"]
                 xcheck_errs += xc["n_eval_errors"]
                 for w in xc["disagreements"]:
-                    crashes.append((d["unit"], f"clause {w['clause']} is discharged but FALSE natively on {w['signature']} "
-                                    f"({w['native_outcome']}): engine/theory disagrees with CPython"))
+                    # The clause was discharged, yet the REAL code violates it on a concrete input: the witness is a genuine,
+                    # replayed violation of the contract (reported as such), and at the same time evidence that the executor's
+                    # model is too coarse for this code (e.g. a one-shot iterator consumed twice) — said in the note.
+                    sig = w.get("signature") or "?"
+                    fake = {"obligation": f"{d['unit']}/{w['clause']}/native-crosscheck", "clause": w["clause"], "props": [prop],
+                            "kind": "post", "backend": "native-crosscheck", "solver_status": "discharged", "havoc": [], "model": None,
+                            "witnesses": [w],
+                            "note": "discharged by the solver but FALSE on the real code for this input: the executor's model does not "
+                                    "cover this behaviour (engine/theory disagrees with CPython); the native witness stands"}
+                    if any(finding_matches(e_, prop, d["unit"], w["clause"], sig) for e_ in known):
+                        known_hits.append((d["unit"], w["clause"], sig, fake))
+                    else:
+                        violations.append((d["unit"], w["clause"], sig, fake, w))
                 for e in xc["eval_errors"][:2]:
                     undecided.append((d["unit"], f"clause not evaluable natively: {e}"))
         for f in d["failures"]:
